@@ -58,6 +58,8 @@ type ckObserver struct {
 	syncs    int  // "sync" records after the bump
 	boundary bool // one of them is the boundary snapshot
 	bad      bool // something could not be observed
+	released bool // the trace point inside execCheckpoint was reached: the read lock had been released
+	nsync    int  // "sync" records of the call that produced a file or a skip, before any failure
 }
 
 var ckObs *ckObserver
@@ -130,7 +132,11 @@ func machineOnLog(w *World, r slog.Record) {
 		}
 		o.mid, _ = walSalts(w.dbPath + "-wal") // unreadable after TRUNCATE: zero salts, not used for that mode
 		o.traceLen = len(w.trace)              // the INJ token of this very record (if any) is already appended: this hook runs deferred
-	case "sync":
+	case "sync", "sync: skip":
+		o.nsync++
+		if r.Message != "sync" {
+			return
+		}
 		if !o.sawCkpt {
 			return
 		}
@@ -176,6 +182,9 @@ func (w *World) observeCheckpoint(rc *Recorder, mode string, f func() error) {
 	ckObs = o
 	prev := litestream.VerifTracePoint // script mode's INJP uses the hook too: chain
 	litestream.VerifTracePoint = func(obj any, ev string) {
+		if ev == "ckpt.run" {
+			o.released = true
+		}
 		if ev == "pt.ckpt.bump" && !o.bumped {
 			o.bumped = true
 			o.post, _ = walSalts(w.dbPath + "-wal") // before any injection armed for this point
@@ -187,9 +196,37 @@ func (w *World) observeCheckpoint(rc *Recorder, mode string, f func() error) {
 			o.traceLen = len(w.trace) // injections up to and including this point precede db.go's read of `other`
 		}
 	}
+	st0 := w.ldb.VerifSyncState()
 	err := f()
 	litestream.VerifTracePoint = prev
 	ckObs = nil
+	if err != nil && !o.bad && w.ldb != nil {
+		// an error exit: what the call leaves behind against Machine.fail_st. Without a copy of the call
+		// having run before the failure the sync state at the exit is the one before the call; once the
+		// read lock had been released the flags are cleared whatever the copies did.
+		st1 := w.ldb.VerifSyncState()
+		_, _, rtx, _ := w.ldb.VerifConcHandles()
+		frames := func(off int64) int64 {
+			if off > 32 {
+				return (off - 32) / (ps + 24)
+			}
+			return 0
+		}
+		if o.released || (o.nsync == 0 && len(w.localL0()) == len(o.before)) {
+			in := L(B(st0.SyncedToWALEnd), B(st0.ReachedWALEnd), I(frames(st0.LastSyncedWALOffset)), B(o.released))
+			if o.released && st1.LastSyncedWALOffset != st0.LastSyncedWALOffset {
+				// a copy of this call moved the offset before the failure: compare the flags only
+				in = L(B(st0.SyncedToWALEnd), B(st0.ReachedWALEnd), I(frames(st1.LastSyncedWALOffset)), B(o.released))
+			}
+			out := L(B(st1.SyncedToWALEnd), B(st1.ReachedWALEnd), I(frames(st1.LastSyncedWALOffset)), B(rtx))
+			cls := "machine-fail/" + mode + "/before-release"
+			if o.released {
+				cls = "machine-fail/" + mode + "/after-release"
+			}
+			rc.cw.Add("machine_fail", in, out, cls, o.released)
+		}
+		return
+	}
 	if err != nil || !o.sawCkpt || !o.bumped || o.bad {
 		return
 	}
